@@ -47,6 +47,12 @@ condition is needed) and every source without `<`:
                                string, which is not inert (pasted back, it can join its two neighbours into a
                                placeholder), so the potential argument does not cover it.
 
+7. `C02_stx_token_invariant_X`, `C02_convertXBig_err_only_strip` — the STX-token invariant of 4. through `InlineX.runX` for
+                               EVERY pattern table (footnote, wikilink, nl2br patterns included), hence
+                               `UnescapeTreeprocessor` does not raise in the extension pipeline when the tree processors
+                               behind the inline stage are `prettify` and `unescape` only (footnotes, abbr, attr_list,
+                               toc off): `convertXBig = err` only if the `<div>` strip fails.
+
 Only property statements live here; proofs in `MdVerif/Lemmas/C02Big.lean`, `MdVerif/Lemmas/C02Big{Str,Pat,Run,Tree}.lean`
 (these four mirror `Lemmas/AmpFull*.lean` of C05 for the stronger invariant), `MdVerif/Lemmas/C02BigX.lean`,
 `MdVerif/Lemmas/C02BigXAll.lean` and `MdVerif/Lemmas/C02BigN{Pot,Em,Pat,HI,PP,Run}.lean` (`Pot`, `Em`, `Pat`, `PP` are copies of
@@ -55,6 +61,7 @@ Only property statements live here; proofs in `MdVerif/Lemmas/C02Big.lean`, `MdV
 -/
 import MdVerif.Lemmas.C02BigTree
 import MdVerif.Lemmas.C02BigXAll
+import MdVerif.Lemmas.C02BigXErr
 
 namespace MdVerif.C02Big
 open Py Block Inline InlineLocal NoCtl Vocab2 MdVerif.C08 MdVerif.C08Src
@@ -343,6 +350,38 @@ example : (match convertXBig xAll {} srcX, convertX xAll {} srcX with
 example : (match convertXBig xFn {} srcFn, convertX xFn {} srcFn with
     | .ok a, .ok b => decide (a = b) && decide (a.length = 781)
     | _, _ => false) = true := by decide +kernel
+
+/-! ### 7. `UnescapeTreeprocessor` in the extension pipeline -/
+
+open TokFull InlineX in
+/-- **The STX-token invariant through the inline tree processor over ANY pattern table** (`C02_stx_token_invariant`
+    for `Model/InlineX.lean`): with reference definitions and footnote ids free of STX (`XOK`), `runLoopX` keeps
+    "every STX is followed by `k`, `w` or a complete escape token below 0x110000" (attribute values: up to a cut at the
+    end) — the footnote pattern writes the reference id and a number, the wikilink pattern word characters, nl2br a
+    `br`; none of them cuts the data behind an STX. -/
+theorem C02_stx_token_invariant_X {xc : XCfg} (hx : XOK xc) (g2 g : Nat) {root t : Node} {stack : List Inline.Path}
+    {x x' : XSt} (h : runLoopX xc g2 g root stack x = some (t, x')) (hd : root.Forall NodeS)
+    (hs : StashS x.st.stash) : t.Forall NodeS :=
+  runLoopX_S hx g2 g root stack x t x' h hd hs
+
+/-- **`UnescapeTreeprocessor` never raises in the extension pipeline** when footnotes, abbr, attr_list, toc and
+    fenced_code are off (tables, admonition, def_list, sane_lists, nl2br, wikilinks on or off; every configuration,
+    every source): `treeXBig` — the stages up to the serializer — never answers `err`. -/
+theorem C02_treeXBig_never_err (x : Exts) (hf : x.fencedCode = false) (hfn : x.footnotes = false) (hab : x.abbr = false)
+    (hal : x.attrList = false) (htoc : x.toc = false) (cfg : Pipeline.Cfg) (src : Str) : treeXBig x cfg src ≠ .err :=
+  treeXBig_ne_err hf hfn hab hal htoc cfg src
+
+/-- … so for these flag sets `convertXBig` answers `err` only if `Markdown.convert` cannot strip the wrapper `<div>`
+    (no `<div>` … `</div>` in the serialised document: the root would have to be something else than the bare `div`
+    the block parser was given — agent c05x's `C05X_rootDiv` excludes it without admonition). -/
+theorem C02_convertXBig_err_only_strip (x : Exts) (hf : x.fencedCode = false) (hfn : x.footnotes = false)
+    (hab : x.abbr = false) (hal : x.attrList = false) (htoc : x.toc = false) (cfg : Pipeline.Cfg) (src : Str)
+    (h : convertXBig x cfg src = .err) :
+    ∃ u html, treeXBig x cfg src = .ok u html ∧ Post.topLevelStrip (Ser.serialize cfg.fmt u) = none :=
+  convertXBig_err_only_strip hf hfn hab hal htoc cfg src h
+
+example : ({ tables := true, admonition := true, defList := true, saneLists := true, nl2br := true, wikilinks := true } : Exts).fencedCode
+    = false := rfl
 
 end Ext
 
